@@ -178,7 +178,28 @@ func reframe(w *Tape, data []byte) ([]byte, string, bool) {
 	if err := dec.Decode(&m); err != nil {
 		return nil, "", false
 	}
+	num0 := func(v any) int64 {
+		if jn, ok := v.(json.Number); ok {
+			i, _ := jn.Int64()
+			return i
+		}
+		return 0
+	}
+	regOff, regSize := num0(m["BlockFilterRegionOffset"]), num0(m["BlockFilterRegionSize"])
 	val := func(base int64) json.Number {
+		switch w.Draw(6) {
+		case 4:
+			// In bounds but arbitrary: somewhere inside the block filter region (sections out of
+			// order, overlapping, or misaligned pass the framing validation).
+			if regSize > 0 {
+				return json.Number(fmt.Sprint(regOff + int64(w.Draw(int(regSize)+1))))
+			}
+		case 5:
+			// In bounds: somewhere inside the row data area.
+			if regOff > 0 {
+				return json.Number(fmt.Sprint(int64(w.Draw(int(regOff) + 1))))
+			}
+		}
 		switch w.Draw(4) {
 		case 0:
 			return json.Number(fmt.Sprint(framingValues[w.Draw(len(framingValues))]))
@@ -199,7 +220,32 @@ func reframe(w *Tape, data []byte) ([]byte, string, bool) {
 	desc := ""
 	k := 1 + w.Draw(3)
 	for i := 0; i < k; i++ {
-		switch w.Draw(7) {
+		switch w.Draw(9) {
+		case 7:
+			// Swap two blocks' filter sections: in bounds, each section still passes its CRC,
+			// but the sections are no longer in block order.
+			blocks, _ := m["DataBlocks"].([]any)
+			if len(blocks) >= 2 {
+				a, b := w.Draw(len(blocks)), w.Draw(len(blocks))
+				ba, _ := blocks[a].(map[string]any)
+				bb, _ := blocks[b].(map[string]any)
+				if ba != nil && bb != nil && a != b {
+					ba["BloomFilterOffset"], bb["BloomFilterOffset"] = bb["BloomFilterOffset"], ba["BloomFilterOffset"]
+					ba["BloomFilterSize"], bb["BloomFilterSize"] = bb["BloomFilterSize"], ba["BloomFilterSize"]
+					desc += fmt.Sprintf("swap-filter-sections[%d,%d] ", a, b)
+				}
+			}
+		case 8:
+			// Move one block's section to the end of the region (overlapping the last one).
+			blocks, _ := m["DataBlocks"].([]any)
+			if len(blocks) >= 1 && regSize > 0 {
+				a := w.Draw(len(blocks))
+				if ba, _ := blocks[a].(map[string]any); ba != nil {
+					sz := num0(ba["BloomFilterSize"])
+					ba["BloomFilterOffset"] = json.Number(fmt.Sprint(regOff + regSize - sz - int64(w.Draw(3))))
+					desc += fmt.Sprintf("block[%d].BloomFilterOffset=%v(end of region) ", a, ba["BloomFilterOffset"])
+				}
+			}
 		case 0:
 			m["BlockFilterRegionOffset"] = val(num(m["BlockFilterRegionOffset"]))
 			desc += fmt.Sprintf("BlockFilterRegionOffset=%v ", m["BlockFilterRegionOffset"])
